@@ -120,6 +120,33 @@ func (c *Ctx) txFinisher(g *ssa.Function) (txIdx, errIdx int, ok bool) {
 	return
 }
 
+// installHeapResultOK lets returnedValue look through a named result whose
+// address is only handed to deferred transaction finishers.
+func (c *Ctx) installHeapResultOK() {
+	heapResultOK = func(al *ssa.Alloc) bool {
+		for _, r := range realReferrers(al) {
+			switch x := r.(type) {
+			case *ssa.Store:
+				if x.Addr != ssa.Value(al) {
+					return false
+				}
+			case *ssa.UnOp:
+			case *ssa.Defer:
+				g := staticCallee(x)
+				if g == nil {
+					return false
+				}
+				if _, _, ok := c.txFinisher(c.declared(g)); !ok {
+					return false
+				}
+			default:
+				return false
+			}
+		}
+		return true
+	}
+}
+
 // finishedBy: the transaction tx opened in fn is ended by a deferred finisher
 // that is given the address of fn's own named error result, which every return
 // of fn delivers. Returns the defer.
@@ -484,9 +511,24 @@ func ruleTX2(c *Ctx) []Ob {
 			isCommit := true
 			for _, og := range origins(rv) {
 				call, isCall := og.(*ssa.Call)
-				if !isCall || !c.isCommit(call) || txReceiver(call) != op.Tx {
-					isCommit = false
+				if isCall && c.isCommit(call) && txReceiver(call) == op.Tx {
+					continue
 				}
+				// a helper that is handed the transaction and ends by committing it
+				if isCall {
+					if g := staticCallee(call); g != nil && c.IsLib(c.declared(g)) {
+						ti := -1
+						for i, a := range call.Common().Args {
+							if a == op.Tx {
+								ti = i
+							}
+						}
+						if ti >= 0 && c.commitsOnSuccess(c.declared(g), ti, 0) {
+							continue
+						}
+					}
+				}
+				isCommit = false
 			}
 			if isCommit {
 				o.add(OK, k, pos, "returns the outcome of Commit on the transaction opened here")
@@ -663,6 +705,53 @@ func (c *Ctx) noWriteWhen(call *ssa.Call, b *ssa.BasicBlock) bool {
 		}
 	}
 	return false
+}
+
+// commitsOnSuccess: every return of g delivers either the outcome of Commit on
+// its parameter #ti, a provably non-nil error, or the result of another such helper.
+func (c *Ctx) commitsOnSuccess(g *ssa.Function, ti int, depth int) bool {
+	if g == nil || len(g.Blocks) == 0 || ti >= len(g.Params) || depth > 3 {
+		return false
+	}
+	ei := errResultIndex(g.Signature)
+	if ei < 0 {
+		return false
+	}
+	txp := ssa.Value(g.Params[ti])
+	n := 0
+	for _, ret := range returnsOf(g) {
+		rv, ok := returnedValue(ret, ei)
+		if !ok {
+			return false
+		}
+		n++
+		if c.provablyNonNil(g, rv, ret.Block()) {
+			continue
+		}
+		for _, og := range origins(rv) {
+			call, isCall := og.(*ssa.Call)
+			if !isCall {
+				return false
+			}
+			if c.isCommit(call) && txReceiver(call) == txp {
+				continue
+			}
+			h := staticCallee(call)
+			if h == nil || !c.IsLib(c.declared(h)) {
+				return false
+			}
+			hi := -1
+			for i, a := range call.Common().Args {
+				if a == txp {
+					hi = i
+				}
+			}
+			if hi < 0 || !c.commitsOnSuccess(c.declared(h), hi, depth+1) {
+				return false
+			}
+		}
+	}
+	return n > 0
 }
 
 // ---------------------------------------------------------------- TX3
